@@ -1,6 +1,6 @@
 (* C13 — property theorems only (proofs in C01/Proofs.v): evaluation is pure on the scope-stack machine of coq/C01/Impl.v. *)
 From Coq Require Import List ZArith NArith Bool.
-From DV Require Import C01.Syntax C01.Spec C01.Impl C01.Proofs.
+From DV Require Import C01.Syntax C01.Spec C01.Impl C01.Proofs C13.ParseScope C13.ParseScopeProofs.
 Import ListNotations.
 Open Scope Z_scope.
 
@@ -19,6 +19,11 @@ Proof. intros f S es. unfold run_impl. apply evaluations_repeatable. Qed.
 Theorem C13_value_is_semantic : forall f S e, fst (run_impl f S e) = eval cart_impl f S e.
 Proof. intros f S e. unfold run_impl. rewrite run_refines. reflexivity. Qed.
 
+(* a successful parse leaves the parsing scope as it found it: the scope actions the parser performs for ANY expression of the
+   fragment (push at `{`, `for`, `some`, `every`, `function(`; add the names; pop at the end of the construct) are balanced *)
+Theorem C13_parse_scope_balanced : forall f e S, pexec (pacts f e) S = S.
+Proof. exact parse_scope_balanced. Qed.
+
 Example C13_nonvacuous :
   let S := [[(101%N, VNum 2)]; [(102%N, VStr [97%N])]] in
   let e := EFilter (EList [ECtx [(103%N, ENum 1)]; ECtx [(103%N, ENum 5)]]) (EBin Gt (EName 103%N) (EName 101%N)) in
@@ -28,4 +33,5 @@ Proof. vm_compute. reflexivity. Qed.
 Print Assumptions C13_stack_restored.
 Print Assumptions C13_repeatable.
 Print Assumptions C13_value_is_semantic.
+Print Assumptions C13_parse_scope_balanced.
 Print Assumptions C13_nonvacuous.
